@@ -165,7 +165,9 @@ def replay_job(job):
     out = {"traces": [], "covered": set(), "exceptions": [], "problems": [], "steps": 0, "paths": 0,
            "differing": 0, "sample": None}
     drv = None
-    undo = inject_collisions(world, job["hash_table"]) if job.get("hash_table") else None
+    out["colliding_lookups"] = 0
+    out["cells_updated_by_body"] = 0
+    undo = inject_collisions(world, job["hash_table"], out) if job.get("hash_table") else None
     try:
         _replay_paths(job, graph, world, work, kind, tol, inplace, full_entries, out)
     finally:
@@ -175,7 +177,7 @@ def replay_job(job):
     return out
 
 
-def inject_collisions(world, table):
+def inject_collisions(world, table, out):
     """Collision injection: xxh3_64 cannot be made to collide, so the branches of BaseFullCache that handle
     several entries under one hash are exercised with a test double of the hash library: the name
     ``hash_data`` used by the full caches is bound, in this worker process only, to the hash table H that
@@ -184,13 +186,17 @@ def inject_collisions(world, table):
     import gemseo.caches.base_full_cache as m1
 
     real = m1.hash_data
-    codes = {}
+    codes, points = {}, {}
 
     def fake(data):
         p = world.point_of_inputs(data)
         if p not in table:
             return real(data)
-        return codes.setdefault(table[p], len(codes) + 1)
+        code = codes.setdefault(table[p], len(codes) + 1)
+        points.setdefault(code, set()).add(p)
+        if len(points[code]) > 1:  # this hash value has been returned for another input as well
+            out["colliding_lookups"] += 1
+        return code
 
     saved = (m1.hash_data, m2.hash_data)
     m1.hash_data = m2.hash_data = fake
@@ -224,6 +230,8 @@ def _replay_paths(job, graph, world, work, kind, tol, inplace, full_entries, out
                 break
             events.append(ev)
             out["steps"] += 1
+            if job["flavour"] == "selfupd" and ev.get("ran") and ev.get("c") != "lit" and ev["after"] != ev["x"][0]:
+                out["cells_updated_by_body"] += 1
             if problem:
                 out["problems"].append({"id": tid, "labels": list(labels), "action": action, "problem": problem})
             if drift is None:
@@ -500,9 +508,11 @@ def run(ck: Check):
     n_paths = {c: 0 for c in configs}
     n_differing = {c: 0 for c in configs}
     samples = {}
+    exercised = {}
     n_steps = 0
     for job, out in zip(rjobs, routs):
         c = job["config"]
+        exercised[c] = exercised.get(c, 0) + out["colliding_lookups"] + out["cells_updated_by_body"]
         n_paths[c] += out["paths"]
         n_differing[c] += out["differing"]
         if out["sample"] and c not in samples:
@@ -516,6 +526,13 @@ def run(ck: Check):
             ck.violation("NoException", dict(sig, action=e["action"], exception=e["exception"]), e)
         for e in out["problems"]:
             ck.violation("BodyCalledOnce", dict(sig, action=e["action"]), e)
+    for c in configs:  # vacuity of the two special set-ups: silent loss of the test double / of the in-place body
+        if c[2] and not exercised.get(c):
+            raise MachineryError(f"collision injection had no effect in {name(c)}: no hash value was shared by two inputs")
+        if c[3] and not exercised.get(c):
+            raise MachineryError(f"self-coupled flavour had no effect in {name(c)}: the body never updated a caller's array")
+    ck.extra["colliding_hash_lookups"] = sum(v for c, v in exercised.items() if c[2])
+    ck.extra["caller_arrays_updated_in_place_by_the_body"] = sum(v for c, v in exercised.items() if c[3])
     stats = {}
     for c in configs:
         g, paths = graphs[c]
